@@ -48,6 +48,7 @@ class Escape:
         self.local_classes = {n: c for n, c in self.mod.classes().items() if '.' not in n and '#' not in n}
         self.meson_exc = self._meson_exceptions()
         self._paths: T.Dict[str, T.List[Path]] = {}
+        self._named: T.Dict[str, T.Dict[str, ast.AST]] = {}
         self._cfg: T.Dict[str, CFG] = {}
         self._trys: T.Dict[str, T.Dict[int, T.List[ast.Try]]] = {}
         self.calls: T.Dict[str, T.List[T.Tuple[ast.AST, T.List[str]]]] = {}
@@ -184,6 +185,16 @@ class Escape:
                 except Undecided:
                     self._paths[qn] = []
             self._paths.setdefault(qn, [])
+            named = self.named_conds(qn)
+            if named:
+                for p in self._paths[qn]:
+                    for e in p.events:
+                        if e.kind == 'cond' and isinstance(e.node, ast.Name) and e.node.id in named:
+                            v = named[e.node.id]
+                            if isinstance(v, ast.UnaryOp) and isinstance(v.op, ast.Not):
+                                e.node, e.val = v.operand, not e.val
+                            elif not isinstance(v, ast.BoolOp):
+                                e.node = v
         return self._paths[qn]
 
     def cfg(self, qn: str) -> CFG:
@@ -211,6 +222,30 @@ class Escape:
             rec(self.funcs[qn], [])
             self._trys[qn] = m
         return self._trys[qn].get(id(node), [])
+
+    def named_conds(self, qn: str) -> T.Dict[str, ast.AST]:
+        """single-definition locals of `qn` (a condition bound to a name before it is tested)"""
+        if qn not in self._named:
+            cnt: T.Dict[str, int] = {}
+            val: T.Dict[str, ast.AST] = {}
+            for st in walk_no_nested(self.funcs[qn]):
+                if isinstance(st, ast.Assign):
+                    for t in st.targets:
+                        for x in ast.walk(t):
+                            if isinstance(x, ast.Name):
+                                cnt[x.id] = cnt.get(x.id, 0) + 1
+                                if isinstance(t, ast.Name):
+                                    val[x.id] = st.value
+                elif isinstance(st, (ast.AugAssign, ast.AnnAssign, ast.For, ast.NamedExpr)):
+                    for x in ast.walk(st.target):
+                        if isinstance(x, ast.Name):
+                            cnt[x.id] = cnt.get(x.id, 0) + 2
+            def testlike(v: ast.AST) -> bool:
+                if isinstance(v, ast.UnaryOp) and isinstance(v.op, ast.Not):
+                    return testlike(v.operand)
+                return isinstance(v, ast.Compare) or (isinstance(v, ast.Call) and isinstance(v.func, ast.Name) and v.func.id in ('isinstance', 'hasattr', 'callable'))
+            self._named[qn] = {k: v for k, v in val.items() if cnt[k] == 1 and testlike(v)}
+        return self._named[qn]
 
     def conds_before(self, qn: str, node: ast.AST) -> T.List[T.Tuple[Path, int]]:
         """(path, index of the event containing node) for every enumerated path through node."""
@@ -417,6 +452,8 @@ class Escape:
             if pts and all(any(e.kind == 'cond' and ((norm(e.node) == f'{k} in {m}' and e.val) or (norm(e.node) == f'{k} not in {m}' and not e.val))
                                for e in p.events[:i + 1]) for p, i in pts):
                 return f'`{k} in {m}` holds on every path'
+            if isinstance(idx, ast.Name) and self.cfg_member_guard(qn, n, k, m):
+                return f'dominated by the test `{k} in {m}` with no assignment to `{k}` in between'
         # (c) constant mapping indexed by the truthy result of accept_any(<the same mapping>)
         if isinstance(idx, ast.Name) and self.is_mapping(qn, n.value):
             defs = [s for s in walk_no_nested(fn) if isinstance(s, ast.Assign) and any(isinstance(t, ast.Name) and t.id == idx.id for t in s.targets)]
@@ -492,6 +529,40 @@ class Escape:
                                                       or (isinstance(c.func, ast.Attribute) and norm(c.func.value) == base)) for c in ast.walk(e.node))
         return bool(pts) and all(any(hands(e) for e in p.events[:i]) for p, i in pts)
 
+    def _consumes(self, node: ast.AST) -> bool:
+        for c in ast.walk(node):
+            if isinstance(c, ast.Call) and (attr_chain(c.func) or '').startswith('self.') and (attr_chain(c.func) or '').count('.') == 1:
+                m = (attr_chain(c.func) or '')[5:]
+                if m == self.tokens.primitive or (m in self.tokens.kindof and any(o.consumed for o in self.tokens.summ.get(m, ()))):
+                    return True
+        return False
+
+    def entry_keywords(self, qn: str) -> T.Optional[T.Set[str]]:
+        """The constant token ids accepted immediately before every call of method `qn` (no consumption in between); None if unknown."""
+        name = qn.split('.')[-1]
+        out: T.Set[str] = set()
+        for q2, f2 in self.funcs.items():
+            if self.cls_of(q2) != self.cls_of(qn):
+                continue
+            for c in walk_no_nested(f2):
+                if isinstance(c, ast.Call) and attr_chain(c.func) == f'self.{name}':
+                    pts = self.conds_before(q2, c)
+                    if not pts:
+                        return None
+                    for p, i in pts:
+                        found = None
+                        for e in reversed(p.events[:i]):
+                            if e.node is None or not self._consumes(e.node):
+                                continue
+                            if e.kind == 'cond' and e.val and isinstance(e.node, ast.Call) and attr_chain(e.node.func) == 'self.accept' \
+                                    and e.node.args and isinstance(e.node.args[0], ast.Constant):
+                                found = e.node.args[0].value
+                            break
+                        if found is None:
+                            return None
+                        out.add(found)
+        return out or None
+
     def filled_by_loop(self, qn: str, n: ast.Attribute, pts: T.List[T.Tuple[Path, int]]) -> T.Optional[str]:
         """`X.whitespaces.value` where X was filled by `for w in L: X.append_whitespaces(w)` and L cannot be empty:
         L is a snapshot of the pending whitespace taken between the consumption of two keyword tokens, and the lexer cannot
@@ -527,14 +598,26 @@ class Escape:
                    and e.node.args and isinstance(e.node.args[0], ast.Constant)]
             before = [a for a in acc if a[0] < snap[0]]
             after = [a for a in acc if a[0] > snap[0]]
+            if not before and after and not any(self._consumes(e.node) for e in evs[:snap[0]] if e.node is not None):
+                # the first keyword was accepted by the caller just before this helper was entered
+                ks = self.entry_keywords(qn)
+                if not ks:
+                    return None
+                before = [(-1, None)]
+                k1s = ks
+            else:
+                k1s = None
             if before and not after:
                 return ('violation', f'`{x}` is filled from the snapshot `{lname}`, which is taken after both keyword tokens were consumed: '  # type: ignore[return-value]
                                      f'it need not contain the whitespace between them, so `{short(n.value)}` can be None')
             if not before or not after:
                 return None
-            k1, k2 = before[-1][1].node.args[0].value, after[0][1].node.args[0].value
+            k2 = after[0][1].node.args[0].value
+            k1 = before[-1][1].node.args[0].value if k1s is None else sorted(k1s)[0]
+            if k1s is not None and not (idre and all(k in kws and all(rx.full_matches(r.pattern, k + k2, r.flags) for r in idre) for k in k1s)):
+                return None
             # no other consumption between the two accepts
-            for e in evs[before[-1][0] + 1:after[0][0]]:
+            for e in evs[max(before[-1][0] + 1, 0):after[0][0]]:
                 if e.node is not None and any(isinstance(c, ast.Call) and (attr_chain(c.func) or '').startswith('self.') and (attr_chain(c.func) or '')[5:] in self.tokens.kindof
                                               and self.tokens.summ.get((attr_chain(c.func) or '')[5:]) and any(o.consumed for o in self.tokens.summ[(attr_chain(c.func) or '')[5:]])
                                               for c in ast.walk(e.node)):
@@ -640,6 +723,26 @@ class Escape:
                     and attr_chain(s.test.left) in incs and any(isinstance(b, ast.Raise) for b in s.body):
                 return True
         return False
+
+    def cfg_member_guard(self, qn: str, n: ast.Subscript, k: str, m: str) -> bool:
+        """The lookup `m[k]` is only reachable through the true edge of a test `k in m`, and `k` is not reassigned in between."""
+        cfg = self.cfg(qn)
+        tests = [t for t in cfg.nodes if t.kind == 'test' and norm(t.expr()) == f'{k} in {m}']
+        sites = cfg.node_containing(n)
+        if not tests or not sites:
+            return False
+        t = tests[0]
+        assigns = [a for a in cfg.nodes if a.kind in ('stmt', 'iter') and any(isinstance(x, ast.Name) and x.id == k and not isinstance(x.ctx, ast.Load)
+                                                                             for x in ast.walk(a.ast if a.kind == 'stmt' else a.ast.target))]
+        for site in sites:
+            if site.id in cfg.reachable([cfg.entry], avoid=[t]):
+                return False
+            false_succ = [cfg.nodes[b] for b, lab in cfg.succ[t.id] if lab is False]
+            if site.id in cfg.reachable(false_succ, avoid=[t], include_start=True):
+                return False
+            if any(a.id != site.id and site.id in cfg.reachable([a], avoid=[t]) for a in assigns):
+                return False
+        return True
 
     def has_guard(self, qn: str, n: ast.Subscript) -> bool:
         i, s = n.slice.id, norm(n.value)  # type: ignore[attr-defined]
